@@ -128,10 +128,20 @@ def run(prop, tier, seed, rep):
             b = b + bytearray(rng.getrandbits(8) for _ in range(rng.randrange(1, 9)))
         script = [rng.choice((0, 0, 1, 1, 2, 3, 20, 20, 20)) for _ in range(rng.randrange(0, 40))]
         between = [list(rnd_frame(rng, rng.choice(sorted(gen.SUPPORTED)))) for _ in range(rng.randrange(0, 4))]
-        inputs.append({"bytes": list(b), "script": script, "tag": "random", "between": between})
+        inp = {"bytes": list(b), "script": script, "tag": "random", "between": between}
+        r = rng.random()
+        if r < 0.25:
+            inp["prefix"] = rng.choice((1, 2, 3, 7, 14, 100))          # the frame does not start at position 0 of the reader
+            inp["tag"] = "prefix"
+        elif r < 0.4 and len(b) in (7, 14) and len(b) == gen.flen(b[0] >> 3):
+            inp["chain"] = 1                                            # two frames back to back from one reader
+            inp["tag"] = "chain"
+            if rng.random() < 0.5:
+                inp["prefix"] = rng.choice((1, 5, 14))
+        inputs.append(inp)
     events = hx_reader(hx, inputs)
     # reference calls for drift detection (the same bytes, unscripted)
-    refs = hx_reader(hx, [{"bytes": x["bytes"], "script": [], "tag": "ref"} for x in inputs])
+    refs = hx_reader(hx, [{"bytes": x["bytes"], "script": [], "tag": "ref", "prefix": x.get("prefix", 0), "chain": x.get("chain", 0)} for x in inputs])
     for e, r in zip(events, refs):
         e["ref"] = r["calls"]
     verdicts, st, tr = core.validate_events("Trace_Reader", events, prop)
